@@ -145,6 +145,19 @@ def _rotm(r):
 
 def _form(r, a, form):
     """the same numbers as float64 array (default), int-valued array, list, float32"""
+    if form == 'pkg':        # the package's own array classes where a quaternion / rotation matrix fits (isinstance shortcuts!)
+        import ahrs
+        a = np.array(a, dtype=float)
+        try:
+            if a.shape == (4,):
+                return ahrs.Quaternion(a, versor=False)
+            if a.ndim == 2 and a.shape[1] == 4:
+                return ahrs.QuaternionArray(a, versors=False)
+            if a.shape == (3, 3):
+                return ahrs.DCM(a)
+        except Exception:
+            pass
+        return a
     if form == 'list':
         return np.asarray(a).tolist()
     if form == 'f32':
@@ -160,7 +173,7 @@ N_ROWS = (5, 3, 4, 1, 2, 7)
 def _cands(pname, ann, default, r, case):
     n = N_ROWS[case % len(N_ROWS)]
     unit = (case % 2 == 0)
-    form = ('f64', 'f64', 'f64', 'list', 'f64', 'int', 'f32')[case % 7]
+    form = ('f64', 'f64', 'f64', 'list', 'f64', 'pkg', 'f32', 'int')[case % 8]
     P = pname.lower()
     out = []
     ann = ann or ''
@@ -173,7 +186,7 @@ def _cands(pname, ann, default, r, case):
         scale = {'acc': 9.81, 'a': 9.81, 'mag': 50.0, 'm': 50.0, 'angles': 40.0 if case % 3 == 0 else 1.0, 'rpy': 1.0}.get(P, 1.0)
         out += [arr(r.standard_normal(3) * scale), arr(r.standard_normal((n, 3)) * scale)]
     elif P in ('dcm', 'r', 'r1', 'r2', 'array', 'rotation', 'rotations', 'dcms', 'c'):
-        out += [arr(_rotm(r)) if form != 'int' else _rotm(r), np.array([_rotm(r) for _ in range(n)])]
+        out += [arr(_rotm(r)) if form not in ('int', 'f32', 'list') else _rotm(r), np.array([_rotm(r) for _ in range(n)])]
     elif P in ('w', 'weights'):
         out += [arr(np.array([2.0, 2.0])), arr(r.uniform(1, 3, n)), arr(np.array([2.0, 1.0, 3.0]))]
     elif P in ('t_array', 't', 'times'):
@@ -245,7 +258,8 @@ def _CTOR_KW(r):
     """keyword arrays a constructor may keep by reference (weights deliberately do not sum to one)"""
     return (('b0', np.array([0.01, -0.02, 0.03])), ('q0', _quat(r, True)), ('weights', np.array([2.0, 2.0])),
             ('magnetic_ref', np.array([20.0, 1.0, 40.0])), ('mag_ref', np.array([20.0, 1.0, 40.0])),
-            ('P', np.identity(4) * 0.5), ('noises', np.array([0.3, 0.5, 0.8])), ('var_acc', 0.25), ('var_mag', 0.64))
+            ('P', np.identity(4) * 0.5), ('noises', np.array([0.3, 0.5, 0.8])), ('var_acc', 0.25), ('var_mag', 0.64),
+            ('adaptive', True))
 
 
 def _instance(cls, r, case):
@@ -387,11 +401,16 @@ def _arrays(obj, path, out, seen, depth=0):
             _arrays(v, f'{path}.{k}', out, seen, depth + 1)
 
 
+def _sig(a):
+    """everything a caller can observe of an array it owns: bytes, shape, strides, dtype, flags, type"""
+    return (a.tobytes(), a.shape, a.strides, str(a.dtype), bool(a.flags.writeable), type(a).__name__)
+
+
 def _snap(named):
     out, seen = [], set()
     for name, o in named:
         _arrays(o, name, out, seen)
-    return [(p, a, a.tobytes(), a.shape, str(a.dtype)) for p, a in out]
+    return [(p, a, _sig(a), a.shape, str(a.dtype)) for p, a in out]
 
 
 def _canon(x):
@@ -458,7 +477,10 @@ def observe(qual, case):
             continue
         mutated = []
         for (p, arr, b, shp, dt) in before:
-            nb = arr.tobytes()
+            try:
+                nb = _sig(arr)
+            except Exception:
+                nb = None
             if nb != b:
                 # NaN payloads aside, identical bytes are required
                 mutated.append(p)
@@ -671,7 +693,15 @@ def _lc_args(cls, name, r, n_rows, optional, trial):
                 if p.default is p.empty:
                     raise LookupError(p.name)
                 continue
-            kw[p.name] = c_[min(trial % 2, len(c_) - 1)] if cls.__name__ != 'Quaternion' else c_[0]
+            # estimators and Quaternion take one sample per call (batches go through the constructors); the trial then
+            # selects magnitudes / options, not shapes
+            kw[p.name] = c_[min(trial % 2, len(c_) - 1)] if cls.__name__ in ('QuaternionArray', 'DCM') else c_[0]
+            if p.name in ('acc', 'a') and isinstance(kw[p.name], np.ndarray) and kw[p.name].ndim == 1 and kw[p.name].dtype.kind == 'f':
+                # off-nominal magnitudes: 15 % above, exactly at, 15 % below, twice the reference gravity
+                v = kw[p.name]
+                ref = getattr(sys.modules.get(cls.__module__), 'GRAVITY', 9.80665)      # the module's own reference gravity
+                ref = float(ref) if isinstance(ref, (int, float, np.floating)) else 9.80665
+                kw[p.name] = v / np.linalg.norm(v) * ref * (1.15, 1.0, 0.85, 2.0)[trial % 4]
     return kw
 
 
@@ -703,7 +733,7 @@ def lifecycle(cqual, opt, data, member, optional, trial):
         except Exception:
             return None
         kwc = {}
-    raw = {k: (v, v.tobytes()) for k, v in held.items() if isinstance(v, np.ndarray)}
+    raw = {k: (v, _sig(v)) for k, v in held.items() if isinstance(v, np.ndarray)}
     n_rows = inst.shape[0] if isinstance(inst, np.ndarray) and inst.ndim == 2 else 6
     try:
         kw = _lc_args(cls, member, _rng(cqual, member, trial), n_rows, optional, trial)
@@ -711,7 +741,7 @@ def lifecycle(cqual, opt, data, member, optional, trial):
         return None
     isprop = kw is None
     kw = kw or {}
-    argraw = {k: (v, v.tobytes()) for k, v in kw.items() if isinstance(v, np.ndarray)}
+    argraw = {k: (v, _sig(v)) for k, v in kw.items() if isinstance(v, np.ndarray)}
     qual = f'{cqual}.{member}'
     res = {'ctor_options': kwc, 'kwargs': {k: _brief(v) for k, v in kw.items()}, 'ctor_changed': [], 'state_changed': [], 'args_changed': [],
            'mutator': _is_documented_mutator(qual, kw), 'aliases_ctor_data': False}
@@ -722,6 +752,11 @@ def lifecycle(cqual, opt, data, member, optional, trial):
     def state():
         s = _snap([('self', inst)])
         return {p: b for (p, a, b, shp, dt) in s}
+
+    def config():
+        d = getattr(inst, '__dict__', {})
+        return {k: v for k, v in d.items() if isinstance(v, (bool, int, float, str, np.floating, np.integer)) and k not in TB.CARRIED_SCALARS}
+    confs = []
 
     def call():
         with np.errstate(all='ignore'), warnings.catch_warnings():
@@ -740,12 +775,14 @@ def lifecycle(cqual, opt, data, member, optional, trial):
             res['second_raised'] = f'{type(e).__name__}: {e}'[:120]
             break
         outs.append(_canon(out))
+        confs.append(config())
         st1 = state()
         res['state_changed'] += [p for p in st0 if p in st1 and st0[p] != st1[p] and p not in res['state_changed']]
-        res['ctor_changed'] += [k for k, (v, b) in raw.items() if v.tobytes() != b and k not in res['ctor_changed']]
-        res['args_changed'] += [k for k, (v, b) in argraw.items() if v.tobytes() != b and k not in res['args_changed']]
+        res['ctor_changed'] += [k for k, (v, b) in raw.items() if _sig(v) != b and k not in res['ctor_changed']]
+        res['args_changed'] += [k for k, (v, b) in argraw.items() if _sig(v) != b and k not in res['args_changed']]
     if len(outs) == 2:
         res['same'] = outs[0] == outs[1]
+        res['config_drift'] = sorted(k for k in confs[0] if k in confs[1] and _canon(confs[0][k]) != _canon(confs[1][k]))
     return res
 
 
@@ -766,6 +803,11 @@ def o_lifecycle(inp):
         return {'tag': f"{q}/mutates-{sorted(ob['args_changed'])[0]}", 'observed': ob, 'expected': 'argument bytes unchanged'}
     if q in TB.DOCUMENTED_RANDOM or any(q.startswith(p) for p in TB.RANDOM_PREFIX) or ob['mutator']:
         return None
+    if ob.get('config_drift'):
+        # identical arguments, same object: a configuration scalar (gain, alpha, weight...) that keeps changing from call to call
+        return {'tag': f'{q}/configuration-drifts', 'observed': {'attributes': ob['config_drift'], 'same_result': ob.get('same'), 'kwargs': ob['kwargs'],
+                                                               'ctor_options': ob['ctor_options']},
+                'expected': 'configuration attributes equal after the first and after the second identical call'}
     strict = cq in ARRAY_CLASSES or inp.get('isprop')
     if strict and ob['state_changed']:
         return {'tag': f'{q}/query-mutates-object', 'observed': ob, 'expected': "the object's arrays unchanged by a method that is not a documented in-place operation"}
@@ -916,7 +958,7 @@ def search(ctx, scale):
             isprop = isinstance(next((k.__dict__[member] for k in cls.__mro__ if member in k.__dict__), None), property)
             for opt in range(nopt):
                 for optional in ((False,) if isprop else (False, True)):
-                    for trial in range(1 if (isprop or not optional) else 2 * scale if scale == 1 else 4):
+                    for trial in range(1 if isprop else (2 if not optional else (2 if scale == 1 else 4))):
                         for data in range(2 if cq in ARRAY_CLASSES else 1):
                             inp = {'class': cq, 'member': member, 'opt': opt, 'data': data, 'optional': optional, 'trial': trial, 'isprop': isprop}
                             r = _safe(o_lifecycle, inp)
